@@ -203,3 +203,13 @@ Theorem C09_multicomponent_macro_refuted :
    matches d = 0 /\ leaf_count (log d) = 0 /\ length (log d) = 1%nat) /\
   names_ok ex_multi = false.
 Proof. exact multicomponent_macro_refuted. Qed.
+
+(* regression witness: walk_ports_recurse0 before the "fix:" commit wrote a '/'
+   behind every index, so the sub-tree name a#2b/ was walked as /a0/b/, /a1/b/
+   (addresses it does not match); repaired: /a0b/, /a1b/ *)
+Theorem C09_index_slash_pinned_refuted :
+  recurse0_pinned 6 probe slash_name [47] [47] =
+    WOk [([0%nat], [47;97;48;47;98;47]); ([0%nat], [47;97;49;47;98;47])] [47;97;49;47;98;47] /\
+  recurse0 6 probe slash_name [47] [47] =
+    WOk (map (fun a => ([0%nat], 47 :: a)) (expand [Lit [97]; Enum 2; Lit [98; 47]])) [47;97;49;98;47].
+Proof. exact recurse0_slash_pinned_refuted. Qed.
